@@ -66,7 +66,9 @@ func c03Gen(r *sim.Rand, tier string) *sim.Case {
 	// failing system calls: one of the cache maps holds a single entry, so the control plane's
 	// insert for every further subscriber fails (E2BIG): 1 MAC map, 2 VLAN map, 3 circuit-id map,
 	// 4 the legacy circuit-id hash map (written next to the circuit-id map for every relayed lease)
-	cs.Knobs["mapcap"] = int64(r.Weighted(5, 2, 1, 1, 1))
+	// 5: transient - the MAC map's spare slot is taken by another subscriber (a blocker entry the
+	// harness puts there) until an "unblock" op removes it: inserts are refused only for a while
+	cs.Knobs["mapcap"] = int64(r.Weighted(5, 2, 1, 1, 1, 2))
 	if cs.Knobs["mapcap"] != 0 {
 		// the fault needs a second subscriber whose insert is refused; relayed ones also have circuit-id entries
 		cs.Knobs["clients"] = int64(r.Range(2, 3))
@@ -96,8 +98,25 @@ func c03Gen(r *sim.Rand, tier string) *sim.Case {
 		if r.P(30) {
 			order = []int64{0, 1}
 		}
+		paced := r.P(50)
+		pace := func() {
+			// sub-second pacing: retries and timers of about a second then fall between the steps
+			if paced && r.P(60) {
+				cs.Ops = append(cs.Ops, sim.Op{K: "sleep", A: []int64{5}})
+			}
+		}
+		unblockAt := -1
+		if cs.Knobs["mapcap"] == 5 {
+			unblockAt = r.N(4)
+		}
+		step := 0
 		for _, c := range order {
-			switch r.Weighted(5, 2, 2) {
+			if step == unblockAt {
+				cs.Ops = append(cs.Ops, sim.Op{K: "unblock"})
+			}
+			step++
+			pace()
+			switch r.Weighted(5, 3, 2) {
 			case 0:
 				cs.Ops = append(cs.Ops, sim.Op{K: "release", A: append([]int64{c}, shape()...)})
 			case 1:
@@ -105,7 +124,22 @@ func c03Gen(r *sim.Rand, tier string) *sim.Case {
 			default:
 				cs.Ops = append(cs.Ops, sim.Op{K: "sleep", A: []int64{4}})
 			}
+			pace()
 			cs.Ops = append(cs.Ops, sim.Op{K: "discover", A: append([]int64{c}, shape()...)})
+			if r.P(60) {
+				cs.Ops = append(cs.Ops, sim.Op{K: "request", A: append([]int64{c}, shape()...)})
+			}
+			if step == unblockAt {
+				cs.Ops = append(cs.Ops, sim.Op{K: "unblock"})
+			}
+			step++
+			pace()
+			if paced && r.P(50) {
+				cs.Ops = append(cs.Ops, sim.Op{K: []string{"discover", "request"}[r.N(2)], A: append([]int64{c}, shape()...)})
+			}
+		}
+		if unblockAt >= step {
+			cs.Ops = append(cs.Ops, sim.Op{K: "unblock"})
 		}
 		n = r.Range(0, 6)
 	}
@@ -123,7 +157,10 @@ func c03Gen(r *sim.Rand, tier string) *sim.Case {
 		case 3:
 			cs.Ops = append(cs.Ops, sim.Op{K: "decline", A: append([]int64{c}, shape...)})
 		case 4:
-			cs.Ops = append(cs.Ops, sim.Op{K: "sleep", A: []int64{int64(r.N(5))}})
+			cs.Ops = append(cs.Ops, sim.Op{K: "sleep", A: []int64{int64(r.Weighted(2, 2, 2, 2, 2, 1))}})
+		}
+		if cs.Knobs["mapcap"] == 5 && r.P(10) {
+			cs.Ops = append(cs.Ops, sim.Op{K: "unblock"})
 		}
 	}
 	return cs
@@ -232,8 +269,11 @@ func c03Run(c *sim.Ctx) {
 		if sp.t == cebpf.Array {
 			n = 1
 		}
-		if mc := cs.Knob("mapcap", 0); (mc == 1 && i == 0) || (mc == 2 && i == 1) || (mc == 3 && i == 6) || (mc == 4 && i == 5) {
+		if mc := cs.Knob("mapcap", 0); (mc == 1 && i == 0) || (mc == 2 && i == 1) || (mc == 3 && i == 6) || (mc == 4 && i == 5) || (mc == 5 && i == 0) {
 			n = 1
+			if mc == 5 {
+				n = 2
+			}
 			capped = i
 			c.S.Probe("kmap_capacity_1_configured")
 		}
@@ -250,6 +290,13 @@ func c03Run(c *sim.Ctx) {
 		maps[i] = m
 		fds[i] = m.FD()
 		defer m.Close()
+	}
+	blockerKey := ebpf.MACToUint64(net.HardwareAddr{0x02, 0xff, 0xff, 0xff, 0xff, 0xfe})
+	blocked := false
+	if cs.Knob("mapcap", 0) == 5 {
+		if err := maps[0].Put(&blockerKey, make([]byte, sz.PoolAssignment)); err == nil {
+			blocked = true
+		}
 	}
 	native.ResetMaps()
 	if err := native.XDPMaps(fds); err != nil {
@@ -471,9 +518,19 @@ func c03Run(c *sim.Ctx) {
 		if c.Failed() {
 			break
 		}
+		if op.K == "unblock" {
+			if blocked {
+				maps[0].Delete(&blockerKey)
+				blocked = false
+				c.S.Fault("kmap.full-map-has-room-again")
+			}
+			continue
+		}
 		if op.K == "sleep" {
 			var d time.Duration
 			switch op.Arg(0) {
+			case 5:
+				d = 400 * time.Millisecond
 			case 0:
 				d = time.Second
 			case 1:
@@ -583,8 +640,8 @@ func init() {
 		Real: []string{"bpf/dhcp_fastpath.c compiled natively with clang against shim helper headers", "ebpf.Loader map writers over real kernel maps created with the C-declared key/value sizes",
 			"dhcp.Server slow path (handlers, lease cleanup loop) + dhcp.Pool/PoolManager.AddPool", "the kernel's map implementation"},
 		Stub:         []string{"XDP attach, driver and NIC (frames are handed to the program directly; XDP_TX output is the reply)", "bpf_ktime_get_ns (kernel uptime = configured boot offset + virtual time)", "bpf_xdp_adjust_tail (moves data_end inside the packet arena)"},
-		Rule:         "cases: 4-30 DISCOVER/REQUEST/RELEASE/DECLINE frames (untagged/802.1Q/QinQ, IHL 5/6, three padding classes, three option layouts, direct or relayed with option 82) from 1-3 clients through the kernel node into the slow path, sleeps across T1/expiry/cleanup; configurations: prefix 20-30 (larger pools are too slow to materialise per run), 0-2 DNS servers, lease 1 s-1 week, server id set/unset, kernel uptime 0-3 years, and in half of the runs one cache map (MAC, VLAN, circuit-id or the legacy circuit-id hash map) created with a single slot so that further inserts are refused by the kernel (E2BIG); non-trivial = a refused insert occurred, or = >=3 frames and both verdicts (TX and PASS) occurred; distinct = distinct case hash",
-		QuickRuns:    10000,
+		Rule:         "cases: 4-30 DISCOVER/REQUEST/RELEASE/DECLINE frames (untagged/802.1Q/QinQ, IHL 5/6, three padding classes, three option layouts, direct or relayed with option 82) from 1-3 clients through the kernel node into the slow path, sleeps across T1/expiry/cleanup; configurations: prefix 20-30 (larger pools are too slow to materialise per run), 0-2 DNS servers, lease 1 s-1 week, server id set/unset, kernel uptime 0-3 years, and in half of the runs one cache map (MAC, VLAN, circuit-id or the legacy circuit-id hash map) created with a single slot so that further inserts are refused by the kernel (E2BIG) - for the MAC map also transiently: a blocker entry takes the spare slot until an unblock op removes it -, with a motif (two clients acknowledged in turn, each ends its lease and asks again, optionally paced in 400 ms steps so that one-second retries fall between the steps); non-trivial = a refused insert occurred, or = >=3 frames and both verdicts (TX and PASS) occurred; distinct = distinct case hash",
+		QuickRuns:    20000,
 		ThoroughRuns: 300000,
 		Assumptions: []string{"native code generation instead of the BPF back end", "'expired in userspace' = the lease has left the userspace lease table (after the cleanup that follows expiry)",
 			"agreement is judged on requests a conforming client sends (REQUEST for the address it was offered or holds)"},
